@@ -35,6 +35,7 @@ import (
 // one transaction cache that is reset before every transaction and committed by the real
 // StateStore.HandleInvokeTransaction when the native call succeeds.
 type world struct {
+	store   *leveldbstore.LevelDBStore
 	overlay *overlaydb.OverlayDB
 	cache   *storage.CacheDB
 	height  uint32
@@ -67,7 +68,7 @@ func newWorld() *world {
 	if err != nil {
 		panic(err)
 	}
-	w := &world{height: 100}
+	w := &world{height: 100, store: store}
 	w.overlay = overlaydb.NewOverlayDB(store)
 	w.cache = storage.NewCacheDB(w.overlay)
 	config.DefConfig.P2PNode.NetworkId = config.NETWORK_ID_MAIN_NET
@@ -101,6 +102,14 @@ func (w *world) plantPeers(nCons, nCand int) {
 	w.cache.Put(utils.ConcatKey(utils.NodeManagerContractAddress, []byte(node_manager.PEER_POOL), utils.GetUint32Bytes(view)), cstates.GenRawStorageItem(sink.Bytes()))
 	w.cache.Commit()
 	w.cache.Reset()
+}
+
+// close releases the in-memory LevelDB of a finished case (it owns goroutines and write buffers).
+func (w *world) close() {
+	if w != nil && w.store != nil {
+		w.store.Close()
+		w.store = nil
+	}
 }
 
 func (w *world) operator() common.Address {
